@@ -86,6 +86,10 @@ func handleUnionStatement(query, pattern sqlparser.Statement) bool {
 		return true
 	}
 
+	match = strings.EqualFold(queryUnionNode.Type, patternUnionNode.Type)
+	if !match {
+		return false
+	}
 	match = areEqualSelectStatement(queryUnionNode.Left, patternUnionNode.Left)
 	if !match {
 		return false
@@ -234,6 +238,10 @@ func handleInsertStatement(query, pattern sqlparser.Statement) bool {
 	if !match {
 		return false
 	}
+	match = areEqualReturning(queryInsertNode.Returning, patternInsertNode.Returning)
+	if !match {
+		return false
+	}
 	return true
 }
 func handleUpdateStatement(query, pattern sqlparser.Statement) bool {
@@ -272,6 +280,14 @@ func handleUpdateStatement(query, pattern sqlparser.Statement) bool {
 		return false
 	}
 	match = areEqualLimit(queryUpdateNode.Limit, patternUpdateNode.Limit)
+	if !match {
+		return false
+	}
+	match = areEqualTableExprs(queryUpdateNode.From, patternUpdateNode.From)
+	if !match {
+		return false
+	}
+	match = areEqualReturning(queryUpdateNode.Returning, patternUpdateNode.Returning)
 	if !match {
 		return false
 	}
@@ -317,6 +333,10 @@ func handleDeleteStatement(query, pattern sqlparser.Statement) bool {
 		return false
 	}
 	match = areEqualLimit(queryDeleteNode.Limit, patternDeleteNode.Limit)
+	if !match {
+		return false
+	}
+	match = areEqualReturning(queryDeleteNode.Returning, patternDeleteNode.Returning)
 	if !match {
 		return false
 	}
@@ -370,6 +390,17 @@ func areEqualSelectExprs(query, pattern sqlparser.SelectExprs) bool {
 	if isStarExpr(pattern) {
 		return true
 	}
+	if len(query) != len(pattern) {
+		return false
+	}
+	for index := range pattern {
+		if !areEqualSelectExpr(query[index], pattern[index]) {
+			return false
+		}
+	}
+	return true
+}
+func areEqualReturning(query, pattern sqlparser.Returning) bool {
 	if len(query) != len(pattern) {
 		return false
 	}
